@@ -4,20 +4,26 @@ Appends a `fixed` entry to known_findings.json and a row to the defect table of 
 import json
 import sys
 
-pid, key, commit, match, what, line = sys.argv[1:7]
-note = sys.argv[7] if len(sys.argv) > 7 else ""
-p = "/verif/known_findings.json"
-d = json.load(open(p))
-d["findings"].append({"property": pid, "key": key, "status": "fixed", "commit": commit, "match": match,
-                      "what_fails": what, "line": "fixed: property=%s %s %s" % (pid, commit, line)})
-json.dump(d, open(p, "w"), indent=1, ensure_ascii=False)
-s = open("/verif/DESIGN.md").read()
-rows = [i for i, l in enumerate(s.split("\n")) if l.startswith("| C") and ("| fixed " in l or "| **known** |" in l)]
-lines = s.split("\n")
-# insert after the last row of the first contiguous defect table block that contains audit rows
-anchor = max(i for i in rows if i < [j for j, l in enumerate(lines) if l.startswith("## 6")][0])
-row = "| %s | %s | fixed %s | %s | %s%s |" % (pid, key, commit, ", ".join("`%s`" % m for m in match.split(",")), what.replace("|", "\\|"),
-                                             (" (%s)" % note) if note else "")
-lines.insert(anchor + 1, row)
-open("/verif/DESIGN.md", "w").write("\n".join(lines))
-print("recorded", key)
+
+def main():
+    pid, key, commit, match, what, line = sys.argv[1:7]
+    note = sys.argv[7] if len(sys.argv) > 7 else ""
+    p = "/verif/known_findings.json"
+    d = json.load(open(p))
+    d["findings"].append({"property": pid, "key": key, "status": "fixed", "commit": commit, "match": match,
+                          "what_fails": what, "line": "fixed: property=%s %s %s" % (pid, commit, line)})
+    json.dump(d, open(p, "w"), indent=1, ensure_ascii=False)
+    s = open("/verif/DESIGN.md").read()
+    rows = [i for i, l in enumerate(s.split("\n")) if l.startswith("| C") and ("| fixed " in l or "| **known** |" in l)]
+    lines = s.split("\n")
+    # insert after the last row of the first contiguous defect table block that contains audit rows
+    anchor = max(i for i in rows if i < [j for j, l in enumerate(lines) if l.startswith("## 6")][0])
+    row = "| %s | %s | fixed %s | %s | %s%s |" % (pid, key, commit, ", ".join("`%s`" % m for m in match.split(",")), what.replace("|", "\\|"),
+                                                 (" (%s)" % note) if note else "")
+    lines.insert(anchor + 1, row)
+    open("/verif/DESIGN.md", "w").write("\n".join(lines))
+    print("recorded", key)
+
+
+if __name__ == "__main__":
+    main()
